@@ -330,7 +330,12 @@ class ListRowContainer(Container):
                 if len(lines_per_row) <= row_id:
                     lines_per_row.append(0)
 
-                lines_per_row[row_id] = max(lines_per_row[row_id], len(item.widget.get_lines()))
+                item_lines = len(item.widget.get_lines())
+                if self._key_pattern is not None:
+                    # the label occupies a line even if the item is empty
+                    item_lines = max(item_lines, self._numbering_widgets[item_id].height)
+
+                lines_per_row[row_id] = max(lines_per_row[row_id], item_lines)
 
         return lines_per_row
 
